@@ -216,7 +216,10 @@ theorem stepOp_good {sp : Spoiled} {s s' : State} {i : Nat} {oc : Outcome} {y : 
         | skip
       all_goals (simp only [Option.some.injEq] at hs; subst hs)
       all_goals (refine ⟨rfl, ⟨_, rfl, trivial⟩, ?_⟩; log_trivial)
-    · simp at hs
+    · split at hs
+      · simp only [stepRetPanic, Option.some.injEq] at hs; subst hs
+        (refine ⟨rfl, ⟨_, rfl, trivial⟩, ?_⟩; log_trivial)
+      · simp at hs
   | take pc o add =>
     simp only at hs
     split at hs
@@ -228,7 +231,10 @@ theorem stepOp_good {sp : Spoiled} {s s' : State} {i : Nat} {oc : Outcome} {y : 
         | skip
       all_goals (simp only [Option.some.injEq] at hs; subst hs)
       all_goals (refine ⟨rfl, ⟨_, rfl, trivial⟩, ?_⟩; log_trivial)
-    · simp at hs
+    · split at hs
+      · simp only [stepTakePanic, Option.some.injEq] at hs; subst hs
+        (refine ⟨rfl, ⟨_, rfl, trivial⟩, ?_⟩; log_trivial)
+      · simp at hs
   | resize n c pc old =>
     simp only at hs
     split at hs
